@@ -408,6 +408,11 @@ def eval_object(obj, root_name, fmt, case, want_loaded_graph=False, skip_hdf5_or
     rec = {'case': case, 'fails': [], 'hist': collections.Counter(), 'heap': None, 'file': None, 'loaded': None,
            'unsupported': [], 'nontrivial': False}
     how = 'hdf5'
+    with warnings.catch_warnings():
+        warnings.simplefilter('ignore')
+        odd_pipes = LG.noncanonical_pipes(obj)
+    if odd_pipes:
+        rec['hist']['input.pipe-differs-from-reinit'] += 1
     rt = hdf5_roundtrip(obj, fmt)
     if rt['save_error']:
         who, et, msg = rt['save_error']
@@ -440,6 +445,17 @@ def eval_object(obj, root_name, fmt, case, want_loaded_graph=False, skip_hdf5_or
                 if not R2.unsupported:
                     rec['loaded'] = G.canonical(R2.nodes, r2, inline_scalars=True, sort_sets=True)
             rec['hist']['hdf5.ok'] += 1
+    if odd_pipes and fmt != 'flat':
+        # predicate on the input: the root holds a LegPipe that is not the pipe LegPipe(legs, qconj, sorted, bunched)
+        # (outer_conj / apply_charge_mapping).  from_hdf5 re-initialises, so exactly these pipes -- and the tensors
+        # carrying them -- come back different.  Only failures located at a pipe or at loading a tensor are renamed.
+        renamed = []
+        for sig, detail in rec['fails']:
+            if sig.startswith('hdf5.') and ((':LegPipe.' in sig) or ('load-raises:Array' in sig) or ('load-raises:LegPipe' in sig)
+                                             or ('test_sanity-fails' in sig and ':Array:' in sig)):
+                sig = 'hdf5.pipe-differs-from-its-reinitialisation'
+            renamed.append((sig, detail))
+        rec['fails'] = renamed
     if do_other:
         rec['fails'] += other_roundtrips(obj, root_name, rec)
     rec['hist'] = dict(rec['hist'])
@@ -468,6 +484,8 @@ def eval_case(case):
             return eval_leg(case)
         if kind == 'linalg':
             return eval_linalg(case)
+        if kind == 'witness':
+            return eval_witness(case)
     except Exception:
         return {'case': case, 'fails': [], 'hist': {'harness-error': 1}, 'heap': None, 'file': None, 'loaded': None,
                 'unsupported': [], 'nontrivial': False, 'harness_error': traceback.format_exc()[-1500:]}
@@ -559,7 +577,7 @@ def eval_linalg(case):
     if what == 'chinfo':
         obj = chinfo
     elif what == 'pipe':
-        obj = LG.gen_pipe(rng, chinfo)
+        obj = LG.gen_pipe(rng, chinfo, derived=case.get('derived'))
     else:
         obj = LG.gen_array(rng, chinfo)
     other = LG.gen_array(rng, chinfo) if rng.random() < 0.5 else None
@@ -567,11 +585,39 @@ def eval_linalg(case):
     rec = eval_object(root, type(obj).__name__, case['fmt'], case, do_other=case['fmt'] == 'blocks')
     h = collections.Counter(rec['hist'])
     h['linalg.%s.%s' % (what, case['fmt'])] += 1
+    if what == 'pipe':
+        h['pipe.derived=%s' % case.get('derived')] += 1
     if what == 'array':
         h['array.rank=%d' % obj.rank] += 1
         h['array.blocks=%s' % _bucket(obj.stored_blocks)] += 1
         h['array.dtype=%s' % obj.dtype] += 1
         h['array.has_pipe=%s' % any(type(l).__name__ == 'LegPipe' for l in obj.legs)] += 1
     rec['hist'] = dict(h)
+    rec['nontrivial'] = True
+    return rec
+
+
+def eval_witness(case):
+    """hand-written inputs (corpus)"""
+    from tenpy.linalg import charges as tc
+    from tenpy.linalg import np_conserved as npc
+    name = case['name']
+    if name in ('outer_conj_pipe', 'mapped_pipe'):
+        # replay of the prover's counterexample C17_pipe_reinit_outer_conj_counterexample
+        ch = tc.ChargeInfo([1], ['N'])
+        l1 = tc.LegCharge.from_qflat(ch, [[0], [1], [2]])
+        l2 = tc.LegCharge.from_qflat(ch, [[0], [2]])
+        p = tc.LegPipe([l1, l2])
+        q = p.outer_conj() if name == 'outer_conj_pipe' else p.apply_charge_mapping(LG.negate_charges(ch))
+        A = npc.Array.from_func(np.ones, [l1, l2], labels=['a', 'b']).combine_legs([0, 1], pipes=[p])
+        if name == 'outer_conj_pipe':
+            A.legs[0] = q
+        else:
+            A = A.apply_charge_mapping(LG.negate_charges(ch))
+        A.test_sanity()
+        root = {'q': q, 'A': A} if case.get('with_array', True) else {'q': q}
+    else:
+        raise ValueError(name)
+    rec = eval_object(root, name, case.get('fmt', 'blocks'), case)
     rec['nontrivial'] = True
     return rec
